@@ -125,7 +125,7 @@ PROPS = {
     ),
     "C04": dict(
         modules=["JPV.Props.C04", "JPV.Props.C09", "JPV.Props.C05", "JPV.Props.C13"],
-        theorems=["JPV.Props.C04_structural", "JPV.Props.C04_structural_reject", "JPV.Props.C03_C04_structural_iff",
+        theorems=["JPV.Props.C04", "JPV.Props.C04_reject", "JPV.Props.C04_structural", "JPV.Props.C04_structural_reject", "JPV.Props.C03_C04_structural_iff",
                   "JPV.Props.C13_compile", "JPV.Props.C09", "JPV.Props.C05_partial", "JPV.Props.C13_token_shapes", "JPV.Props.C13_lex"],
         tables=[T + "regexes_model", T + "escapes_model", T + "token_map_model", T + "function_argument_map_model",
                 T + "precedences_model", T + "binary_operators_model", T + "comparison_operators_model"],
